@@ -861,6 +861,8 @@ func genNames(r *Rng, recipe string, n int) []string {
 			return genDates(r, n, false)
 		case "dates-mixed":
 			return genDates(r, n, true)
+		case "dates-far": // one layout, with years far outside 1677..2262
+			return genDatesFrom(r, n, poolDates[Pick(r, []int{0, 2, 4, 6})])
 		case "dates-ties": // one layout, several spellings of one instant (time zones)
 			return genDatesFrom(r, n, poolDates[8])
 		default: // anything
@@ -1005,7 +1007,7 @@ var recipes = []recipe{
 	{"numeric", "numbers-distinct"}, {"numeric", "puretext"}, {"numeric", "numbers"}, {"numeric", "num+text"}, {"numeric", "any"},
 	{"contextual", "weekdays"}, {"contextual", "months"}, {"context", "weekdays"}, {"contextual", "puretext"},
 	{"contextual", "numbers-distinct"}, {"contextual", "cal-mixed"}, {"contextual", "cal-ties"}, {"contextual", "any"},
-	{"date", "dates-one-layout"}, {"date", "dates-one-layout"}, {"date", "dates-mixed"}, {"date", "dates-ties"}, {"date", "weekdays"}, {"date", "months"},
+	{"date", "dates-one-layout"}, {"date", "dates-one-layout"}, {"date", "dates-mixed"}, {"date", "dates-ties"}, {"date", "dates-far"}, {"date", "weekdays"}, {"date", "months"},
 	{"date", "puretext"}, {"date", "any"},
 	{"value", "any"}, {"value", "text"}, {"value", "num+text"},
 	{"*", "any"}, // any spec incl. malformed
